@@ -364,45 +364,43 @@ func checkC17(w *World, r *Report) {
 		fi := w.MustFn(w.Godi, "(*collection).addService")
 		info := fi.Pkg.TypesInfo
 		fl := w.FlowOf(fi)
-		mutators := map[*types.Func]bool{}
+		writers := map[*types.Func]bool{}
 		for f := range rg.viewWriters {
-			mutators[f.Obj] = true
+			writers[f.Obj] = true
 		}
-		for f := range w.HelperClosure(map[*FuncInfo]string{fi: "addService"}) {
-			if f != fi {
-				for _, c := range callsIn(f.Decl.Body, true) {
-					if cal := callee(f.Pkg.TypesInfo, c); cal != nil && mutators[cal] {
-						mutators[f.Obj] = true
-					}
-				}
-			}
-		}
-		sol := fl.Solve(Spec{Must: true, Node: func(n ast.Node, in Facts) (gen, kill []string) {
-			for _, c := range callsIn(n, false) {
-				if cal := callee(info, c); cal != nil && cal.Name() == "Validate" {
-					if rn := recvNamed(cal); rn != nil {
-						gen = append(gen, "validated:"+rn.Obj().Name())
-					}
-				}
-			}
-			return
-		}})
 		bad := ""
 		n := 0
-		for _, nd := range fl.Nodes() {
-			for _, c := range callsIn(nd, false) {
-				if cal := callee(info, c); cal != nil && mutators[cal] {
-					n++
-					if !sol.Before[nd].Has("validated:Descriptor") || !sol.Before[nd].Has("validated:addOptions") {
-						bad = "the registration call at " + w.Pos(c.Pos()) + " is reachable without descriptor and option validation having run"
+		fl.Solve(Spec{Must: true, Global: globalPrefixes("validated:"),
+			Node: func(nd ast.Node, in Facts) (gen, kill []string) {
+				for _, c := range callsIn(nd, false) {
+					if cal := callee(info, c); cal != nil && cal.Name() == "Validate" {
+						if rn := recvNamed(cal); rn != nil {
+							gen = append(gen, "validated:"+rn.Obj().Name())
+						}
 					}
 				}
-			}
-		}
+				return
+			},
+			Observe: func(sub *Flow, nd ast.Node, before Facts) {
+				for _, c := range callsIn(nd, false) {
+					if cal := callee(info, c); cal != nil && writers[cal] {
+						n++
+						if !before.Has("validated:Descriptor") || !before.Has("validated:addOptions") {
+							bad = "the registry write at " + w.Pos(c.Pos()) + " is reachable without descriptor and option validation having run"
+						}
+					}
+				}
+				if len(rg.viewWrites(info, nd)) > 0 {
+					n++
+					if !before.Has("validated:Descriptor") || !before.Has("validated:addOptions") {
+						bad = "the registry write at " + w.Pos(nd.Pos()) + " is reachable without descriptor and option validation having run"
+					}
+				}
+			}})
 		if n == 0 {
 			bad = "addService never reaches a function that writes the registry"
 		}
-		r.Check(bad == "", "R17.6", fi.Name()+"#validate-first", fi.Decl.Pos(), true, "descriptor.Validate() and options.Validate() dominate every registration call", bad)
+		r.Check(bad == "", "R17.6", fi.Name()+"#validate-first", fi.Decl.Pos(), true, "descriptor.Validate() and options.Validate() dominate every registry write reached from addService", bad)
 	}
 
 	// ---- R17.7
@@ -804,7 +802,7 @@ func checkAtomicRejection(w *World, r *Report, rg *registry) {
 // checkSnapshot: R17.5.
 func checkSnapshot(w *World, r *Report, rg *registry) {
 	ro := resolveRoles(w)
-	fi := ro.doBuild
+	fi := ro.allocProvider
 	info := fi.Pkg.TypesInfo
 	_, st := w.Struct(w.Godi, "provider")
 	isContainer := func(v *types.Var) bool {
